@@ -38,13 +38,86 @@ pub mod thread {
     pub struct JoinHandle(pub usize);
     /// captured, not run: the harness's schedule decides when (see env::sched)
     pub fn spawn<F: FnOnce() + 'static>(f: F) -> JoinHandle {
-        JoinHandle(crate::env::sched::spawn_thread(Box::new(f)))
+        use crate::env::sched;
+        if sched::inline() {
+            // see env::sched INLINE: run on the spawner's stack, nothing boxed
+            unsafe {
+                if let Some(h) = sched::THREAD_PRE {
+                    h();
+                }
+            }
+            f();
+            unsafe {
+                if let Some(h) = sched::THREAD_POST {
+                    h();
+                }
+            }
+            return JoinHandle(usize::MAX);
+        }
+        JoinHandle(sched::spawn_thread(Box::new(f)))
     }
 }
 
 pub mod sync {
-    pub use ::std::sync::{Arc, Mutex};
-    use core::cell::{Ref, RefCell, RefMut};
+    pub use ::std::sync::Arc;
+    use core::cell::{Cell, Ref, RefCell, RefMut};
+    /// Model mutex for the cooperative scheduler: an actor that asks for a lock another actor
+    /// holds is *not enabled* at that point, so the schedule that nests it there does not exist
+    /// (the path is cut), it is not a deadlock of the code under test.
+    /// number of model mutexes currently held (harness schedulers use it: an actor whose next
+    /// step is `lock()` on a held mutex is blocked, i.e. simply not scheduled there)
+    pub static mut HELD: u32 = 0;
+    pub fn held_count() -> u32 {
+        unsafe { HELD }
+    }
+    pub struct Mutex<T> {
+        held: Cell<bool>,
+        v: RefCell<T>,
+    }
+    pub struct MutexGuard<'a, T> {
+        m: &'a Mutex<T>,
+        g: Option<RefMut<'a, T>>,
+    }
+    impl<T> Mutex<T> {
+        pub fn new(t: T) -> Self {
+            Mutex { held: Cell::new(false), v: RefCell::new(t) }
+        }
+        pub fn lock(&self) -> Result<MutexGuard<'_, T>, Poison> {
+            if self.held.get() {
+                crate::env::nd::bound_exceeded("blocked on a held lock: this interleaving does not exist");
+            }
+            self.held.set(true);
+            unsafe { HELD += 1 };
+            Ok(MutexGuard { m: self, g: Some(self.v.borrow_mut()) })
+        }
+    }
+    impl<'a, T> core::ops::Deref for MutexGuard<'a, T> {
+        type Target = T;
+        fn deref(&self) -> &T {
+            self.g.as_ref().unwrap()
+        }
+    }
+    impl<'a, T> core::ops::DerefMut for MutexGuard<'a, T> {
+        fn deref_mut(&mut self) -> &mut T {
+            self.g.as_mut().unwrap()
+        }
+    }
+    impl<'a, T> Drop for MutexGuard<'a, T> {
+        fn drop(&mut self) {
+            self.g = None;
+            self.m.held.set(false);
+            unsafe {
+                if HELD > 0 {
+                    HELD -= 1;
+                }
+            }
+        }
+    }
+    impl<T: Default> Default for Mutex<T> {
+        fn default() -> Self {
+            Mutex::new(T::default())
+        }
+    }
     #[derive(Debug)]
     pub struct Poison;
     /// single-threaded model: lock acquisition always succeeds, poisoning out of scope
@@ -66,19 +139,60 @@ pub mod sync {
 pub mod collections {
     pub use ::std::collections::{BTreeMap, VecDeque};
     pub const SCAP: usize = 6;
-    /// linear small-array set (no hashing). Every loop scans the whole concrete capacity.
-    pub struct HashSet<T> {
-        items: [Option<T>; SCAP],
+    /// linear small-array set (no hashing); the elements live in a static pool (the set is a
+    /// handle), because the real code keeps the set behind an `Arc` and heap-resident model
+    /// state is what CBMC handles worst. Every loop scans the whole concrete capacity.
+    pub const NSETS: usize = 4;
+    pub struct SetPool<T> {
+        pub items: [[Option<T>; SCAP]; NSETS],
+        pub used: usize,
     }
-    impl<T: PartialEq> HashSet<T> {
+    impl<T> SetPool<T> {
+        pub const NEW: SetPool<T> = SetPool { items: [const { [const { None }; SCAP] }; NSETS], used: 0 };
+    }
+    pub trait SetElem: Sized + PartialEq + 'static {
+        fn pool() -> &'static mut SetPool<Self>;
+    }
+    static mut ID_SETS: SetPool<scru128::Scru128Id> = SetPool::NEW;
+    impl SetElem for scru128::Scru128Id {
+        #[allow(static_mut_refs)]
+        fn pool() -> &'static mut SetPool<Self> {
+            unsafe { &mut ID_SETS }
+        }
+    }
+    #[allow(static_mut_refs)]
+    pub fn reset_sets() {
+        unsafe { ID_SETS = SetPool::NEW }
+    }
+    pub struct HashSet<T: SetElem> {
+        ix: usize,
+        _p: core::marker::PhantomData<T>,
+    }
+    impl<T: SetElem> HashSet<T> {
         pub fn new() -> Self {
-            HashSet { items: [None, None, None, None, None, None] }
+            let p = T::pool();
+            let cap = if crate::env::pool::is_multi() { NSETS } else { 1 };
+            if p.used >= cap {
+                crate::env::nd::bound_exceeded("HashSet pool (singleton mode)");
+            }
+            let ix = p.used;
+            p.used += 1;
+            HashSet { ix, _p: core::marker::PhantomData }
+        }
+        fn items(&self) -> &'static mut [Option<T>; SCAP] {
+            // the handle sits behind an Arc (heap): see env::pool on singleton mode
+            if crate::env::pool::is_multi() {
+                &mut T::pool().items[self.ix]
+            } else {
+                &mut T::pool().items[0]
+            }
         }
         pub fn contains(&self, t: &T) -> bool {
+            let items = self.items();
             let mut r = false;
             let mut i = 0;
             while i < SCAP {
-                if let Some(x) = &self.items[i] {
+                if let Some(x) = &items[i] {
                     if x == t {
                         r = true;
                     }
@@ -91,11 +205,12 @@ pub mod collections {
             if self.contains(&t) {
                 return false;
             }
+            let items = self.items();
             let mut item = Some(t);
             let mut i = 0;
             while i < SCAP {
-                if item.is_some() && self.items[i].is_none() {
-                    self.items[i] = item.take();
+                if item.is_some() && items[i].is_none() {
+                    items[i] = item.take();
                 }
                 i += 1;
             }
@@ -106,15 +221,16 @@ pub mod collections {
             true
         }
         pub fn remove(&mut self, t: &T) -> bool {
+            let items = self.items();
             let mut r = false;
             let mut i = 0;
             while i < SCAP {
-                let hit = match &self.items[i] {
+                let hit = match &items[i] {
                     Some(x) => x == t,
                     None => false,
                 };
                 if hit {
-                    self.items[i] = None;
+                    items[i] = None;
                     r = true;
                 }
                 i += 1;
@@ -122,10 +238,11 @@ pub mod collections {
             r
         }
         pub fn len(&self) -> usize {
+            let items = self.items();
             let mut c = 0;
             let mut i = 0;
             while i < SCAP {
-                if self.items[i].is_some() {
+                if items[i].is_some() {
                     c += 1;
                 }
                 i += 1;
@@ -136,10 +253,10 @@ pub mod collections {
             self.len() == 0
         }
         pub fn iter(&self) -> impl Iterator<Item = &T> {
-            self.items.iter().filter_map(|x| x.as_ref())
+            self.items().iter().filter_map(|x| x.as_ref())
         }
     }
-    impl<T: PartialEq> Default for HashSet<T> {
+    impl<T: SetElem> Default for HashSet<T> {
         fn default() -> Self {
             Self::new()
         }
